@@ -615,14 +615,24 @@ def _run(Diff, o, n, syntax):
         return "err:" + type(e).__name__
 
 
+def _real_path(path):
+    """The file actually written: one of two fixed names per worker process, so that the SAME path is read again
+    and again with different contents within one process (a reader that caches by path name would serve stale
+    text). The unique name in the case is what the model is told; the path string itself never influences a diff."""
+    import zlib
+    side = "old" if path.endswith("-old.cfg") else "new"
+    return f"{SCRATCH}/w{os.getpid()}-{zlib.crc32(path.encode()) % 2}-{side}.cfg"
+
+
 def impl(case):
     ccp = quiet_ccp()
     Diff = ccp.Diff
     made = []
     try:
-        o = _arg(case["oform"], case["old"], case["opath"])
-        n = _arg(case["nform"], case["new"], case["npath"])
-        made = [p for f, p in ((case["oform"], case["opath"]), (case["nform"], case["npath"])) if f == "path"]
+        opath, npath = _real_path(case["opath"]), _real_path(case["npath"])
+        o = _arg(case["oform"], case["old"], opath)
+        n = _arg(case["nform"], case["new"], npath)
+        made = [p for f, p in ((case["oform"], opath), (case["nform"], npath)) if f == "path"]
         first = _run(Diff, o, n, case["syntax"])
         if isinstance(first, str):
             return first
